@@ -19,13 +19,22 @@ impl VClone for ImmExpr { #[verifier::external_body] fn vclone(&self) -> (r: Sel
 impl VClone for String { #[verifier::external_body] fn vclone(&self) -> (r: Self) { unimplemented!() } }
 impl VClone for Ty { #[verifier::external_body] fn vclone(&self) -> (r: Self) { unimplemented!() } }
 #[verifier::external_body] pub fn imm_ty(imm: &ImmExpr) -> (r: Ty) { unimplemented!() }
-#[verifier::external_body] pub fn find_closure_apply_fn(goenv: &GlobalGoEnv, closure_ty: &Ty) -> (r: Option<ClosureApplyFn>) { unimplemented!() }
+// the apply method of a closure ENVIRONMENT type; a function type has none (None, on which compile_go's `.expect` panics), so a function
+// value must not be sent here
+#[verifier::external_body] pub fn find_closure_apply_fn(goenv: &GlobalGoEnv, closure_ty: &Ty) -> (r: Option<ClosureApplyFn>) requires !ty_is_func(*closure_ty) { unimplemented!() }
 #[verifier::external_body] pub fn unreached<T>() -> (r: T) requires false { unimplemented!() }
-// `go e`: ONE go statement whose call is the Go call of `apply(closure)` — the closure's apply function with the closure as its only argument
+// `go e`: ONE go statement whose call is the Go call of EITHER `apply(closure)` — a lifted closure is started through its apply function, with
+// the closure as its only argument — OR `closure()` — a plain function value is called directly, without arguments
 pub open spec fn is_go_of(goenv: &GlobalGoEnv, closure: ImmExpr, s: Stmt) -> bool {
     s matches Stmt::Go { call } && exists|c: CExpr| call == #[trigger] go_call_of(goenv, &c)
-        && (c matches CExpr::ECall { func, args, ty: _ } && func is ImmVar && args@.len() == 1 && args@[0] == closure)
+        && (c matches CExpr::ECall { func, args, ty: _ }
+            && ((func is ImmVar && args@.len() == 1 && args@[0] == closure) || (func == closure && args@.len() == 0)))
 }
+pub uninterp spec fn imm_ty_of(i: ImmExpr) -> Ty;
+pub enum TyShape { Func { ret: Ty }, Other }
+pub uninterp spec fn ty_is_func(t: Ty) -> bool;
+#[verifier::external_body] pub fn ty_shape(t: &Ty) -> (r: TyShape) ensures (r is Func) == ty_is_func(*t) { unimplemented!() }           // `if let Ty::TFunc { ret_ty, .. } = &ty` (Ty is opaque in this unit)
+#[verifier::external_body] pub fn vec_no_imm() -> (r: Vec<ImmExpr>) ensures r@.len() == 0 { unimplemented!() }   // vec![]
 
 
 // C09: the complex expressions whose evaluation is an observable effect even when the value is discarded
